@@ -23,7 +23,7 @@ TECHNIQUE = 'exhaustive microsecond sweep + exact-rational oracle on adversarial
 RULE = ('(a) all 10^6 microseconds x seconds values; (d) boundary-adjacent fractions; non-trivial = value whose sub-second part is non-zero; '
         'distinct = (part, seconds value, block) / (resolution, fraction class)')
 ASSUMPTIONS = ['datetime64 conversions are specified to truncate (within one unit), not to round']
-REQUIRED = ['raw_scalar_paths', 'roundtrip_scalar', 'roundtrip_array', 'writer_roundtrip_values', 'raw_pairs_bit_exact', 'conversions_checked', 'monotone_pairs',
+REQUIRED = ['derived_array_conversions', 'time_track_exact_points', 'raw_scalar_paths', 'roundtrip_scalar', 'roundtrip_array', 'writer_roundtrip_values', 'raw_pairs_bit_exact', 'conversions_checked', 'monotone_pairs',
             'scalar_vs_array', 'time_tracks', 'defragment_raw']
 EXHAUSTIVE = {'quick': False, 'thorough': False}
 SECONDS = {
@@ -217,8 +217,18 @@ def conversions(case, ctx):
     arr = np.zeros(len(pairs), dtype=[('second_fractions', '<u8'), ('seconds', '<i8')])
     arr['seconds'] = [p[0] for p in pairs]
     arr['second_fractions'] = [p[1] for p in pairs]
-    conv = TimestampArray(arr).as_datetime64(unit)
+    ta = TimestampArray(arr)
+    conv = ta.as_datetime64(unit)
     epoch = np.datetime64('1904-01-01T00:00:00', unit)
+    # arrays derived from an already converted array convert to THEIR elements
+    for name, sub, want in (('slice', ta[2:7], conv[2:7]), ('reversed', ta[::-1], conv[::-1]), ('copy', ta[1:4].copy(), conv[1:4])):
+        got = sub.as_datetime64(unit)
+        ctx.count('derived_array_conversions')
+        if len(got) != len(want) or (got != want).any():
+            ctx.violation('conversion-of-derived-array/%s' % name, {'unit': unit, 'got': [str(x) for x in got[:4]], 'want': [str(x) for x in want[:4]]})
+    other = {'s': 'ms', 'ms': 'us', 'us': 'ns', 'ns': 'us'}[unit]
+    if (ta.as_datetime64(other) != np.array([TdmsTimestamp(s_, f_).as_datetime64(other) for s_, f_ in pairs[:len(ta)]])).any():
+        ctx.violation('conversion-after-other-resolution', {'first': unit, 'then': other})
     prev = None
     for i, (s, f) in enumerate(pairs):
         ctx.evaluation()
@@ -283,6 +293,16 @@ def time_track(case, ctx):
                 continue
             st = ch.properties['wf_start_time']
             st64 = st.as_datetime64(acc) if raw_ts else st
+            # absolute = (start time at the requested accuracy) + (relative offsets truncated to that accuracy)
+            for k in ([0, n - 1, n // 2] if n else []):
+                exact_units = Fraction(float(rel[k])) * U
+                trunc = int(exact_units)            # toward zero
+                got_units = Fraction(int((ab[k] - st64).astype('m8[ns]').astype('int64')) * U, 10 ** 9)
+                ctx.count('time_track_exact_points')
+                near_integer = abs(exact_units - round(exact_units)) < Fraction(1, 10 ** 6) * max(1, abs(exact_units))
+                if got_units != trunc and not (near_integer and abs(got_units - trunc) <= 1):
+                    ctx.violation('time_track/absolute-is-not-start-plus-truncated-offset/%s' % acc,
+                                  dict(info, k=k, start=str(st64), got=str(ab[k]), offset_units=float(exact_units)))
             for k in ([0, n - 1, n // 2] if n else []):
                 exact_off = (Fraction(offset) + k * Fraction(inc)) * U
                 got_off = Fraction(int((ab[k] - st64).astype('m8[ns]').astype('int64')) * U, 10 ** 9)
